@@ -100,7 +100,7 @@ def w_gain(ctx, rng, i):
     def arr(scale):
         a = rng.normal(0, 1, shape) * scale
         return a + 1j * rng.normal(0, 1, shape) * scale if dtype == "complex" else a
-    x = T.optical_signal(arr(amp), arr(amp * 10 ** rng.uniform(-2, 0)) if noise else None)
+    x = T.optical_signal(core.degenerate_rows(rng, arr(amp), every=8, rows_only=True), core.degenerate_rows(rng, arr(amp * 10 ** rng.uniform(-2, 0)), every=5, rows_only=True) if noise else None)
     G = float(rng.uniform(0, 40)) if i % 9 else float([0.0, 40.0, 20.0][i // 9 % 3])
     NF = float(rng.uniform(3, 10))
     BW = None if rng.integers(3) or n < 32 else float(rng.uniform(0.05, 0.9)) * fs
